@@ -580,7 +580,7 @@ class DAG(nx.DiGraph):
         >>> student.is_dconnected('grades', 'sat')
         True
         """
-        if end in self.active_trail_nodes(start, observed)[start]:
+        if end in self.active_trail_nodes(start, observed, include_latents=True)[start]:
             return True
         else:
             return False
